@@ -390,7 +390,7 @@ fn run_stress(ctx: &Ctx, rep: &mut Report) {
 }
 
 pub fn run(ctx: &Ctx, rep: &mut Report, replay: Option<&serde_json::Value>) {
-    rep.rule("threads performing the metric operations of RtrStream::new/Drop (get_client, inc, byte count, dec) for addresses from a pool of 4 under harness-owned schedules over rtr_metrics.{before_lock,locked,before_store} and the registry mutex's try-lock: (dfs) every schedule of 18 two-thread programs (same/different/new/existing addresses, with closes and second connections; thorough adds 3-4 thread programs, capped at 100 000 schedules each), (sampled) generated programs of 2-4 threads x 1-4 ops with generated choice strings, (stress) uncontrolled 16-thread rounds, (e2e) real rtr_listener with TCP clients from 127.0.0.1-127.0.0.4; invariant checked at every scheduling step (list strictly sorted, no address disappears) and at the end (exactly the connected addresses, per-entry byte counts equal the number of connections through any handle, open counts exact, zero after all closed); non-trivial = two first connections from the same new address by different threads both leave the fast path and overlap; distinct by program+schedule");
+    rep.rule("threads performing the metric operations of RtrStream::new/Drop (get_client, inc, byte count, dec) for addresses from a pool of 4 under harness-owned schedules over rtr_metrics.{before_lock,locked,before_store} and the registry mutex's try-lock: (dfs) every schedule of 18 two-thread programs (same/different/new/existing addresses, with closes and second connections; thorough adds 3-4 thread programs, capped at 100 000 schedules each), (sampled) generated programs of 2-4 threads x 1-4 ops with generated choice strings, (stress) uncontrolled 16-thread rounds, (e2e) real rtr_listener with TCP clients from 127.0.0.1-127.0.0.4, in 40 % of the cases part of the clients go to a second server whose rtr-tcp-keepalive the kernel rejects (every connection setup fails after accept; its counts must be zero afterwards); invariant checked at every scheduling step (list strictly sorted, no address disappears) and at the end (exactly the connected addresses, per-entry byte counts equal the number of connections through any handle, open counts exact, zero after all closed); non-trivial = two first connections from the same new address by different threads both leave the fast path and overlap; distinct by program+schedule");
     rep.assume("the yield points cover every lock acquisition and the load/lock/re-load/store steps of RtrPerAddrMetrics::get; interleavings inside regions without yield points (atomic counter updates) are only exercised by the uncontrolled stress rounds");
     rep.assume("one controlled thread runs at a time, i.e. sequentially consistent executions only (no weak-memory effects)");
     if let Some(v) = replay {
@@ -415,6 +415,8 @@ pub fn run(ctx: &Ctx, rep: &mut Report, replay: Option<&serde_json::Value>) {
     if rep.violated() {
         return;
     }
+    // a failing e2e case waits 10 s for the counts to drain: keep shrinking short
+    ctx.shrink_iters.store(10, std::sync::atomic::Ordering::Relaxed);
     run_prop(ctx, rep, "e2e", ctx.tier.pick(60, 1_000), e2e_strategy(), prop_e2e);
 }
 
@@ -425,10 +427,14 @@ pub struct E2eCase {
     /// Per client: (source address 127.0.0.<1+x>, listener index 0/1, batch).
     /// Clients of one batch connect concurrently; all stay open until every batch connected.
     pub clients: Vec<(u8, u8, u8)>,
+    /// Listener 1 belongs to a second server whose rtr-tcp-keepalive the kernel rejects: the setup of
+    /// every connection to it fails after the connection was accepted.
+    #[serde(default)]
+    pub failing_setups: bool,
 }
 
 fn e2e_strategy() -> impl Strategy<Value = E2eCase> {
-    prop::collection::vec((0u8..4, 0u8..2, 0u8..3), 6..=20).prop_map(|clients| E2eCase { clients })
+    (prop::collection::vec((0u8..4, 0u8..2, 0u8..3), 6..=20), prop::bool::weighted(0.4)).prop_map(|(clients, failing_setups)| E2eCase { clients, failing_setups })
 }
 
 fn prop_e2e(case: &E2eCase, info: &mut CaseInfo) -> Verdict {
@@ -438,7 +444,20 @@ fn prop_e2e(case: &E2eCase, info: &mut CaseInfo) -> Verdict {
         Err(e) => return Verdict::Dropped(format!("listener_start:{}", e)),
     };
     let metrics = srv.metrics.clone();
-    let ports = srv.ports.clone();
+    let mut ports = srv.ports.clone();
+    let failing = case.failing_setups && !crate::c19::kernel_accepts_keepalive(100_000);
+    let bad = if failing {
+        match RtrTestServer::start(1, Some(std::time::Duration::from_secs(100_000)), true) {
+            Ok(s) => Some(s),
+            Err(e) => return Verdict::Dropped(format!("listener_start:{}", e)),
+        }
+    } else {
+        None
+    };
+    if let Some(b) = &bad {
+        ports[1] = b.ports[0];
+        info.class("e2e_failing_setups");
+    }
     let t = std::time::Duration::from_secs(5);
     let clients = case.clients.clone();
     let res: Result<(BTreeMap<IpAddr, u64>, usize, Vec<RtrClient>), String> = srv.rt.block_on(async move {
@@ -458,18 +477,21 @@ fn prop_e2e(case: &E2eCase, info: &mut CaseInfo) -> Verdict {
             let futs = members.iter().map(|m| {
                 let src: IpAddr = format!("127.0.0.{}", 1 + m.0).parse().unwrap();
                 let port = ports[m.1 as usize];
+                let expect_closed = failing && m.1 == 1;
                 async move {
                     let mut c = RtrClient::connect_from(src, port).await?;
                     match c.reset_query(1, t).await {
-                        Exchange::Answered { .. } => Ok::<_, String>((src, c)),
+                        Exchange::Answered { .. } if !expect_closed => Ok::<_, String>(Some((src, c))),
+                        Exchange::Closed | Exchange::Io(_) if expect_closed => Ok(None),
                         other => Err(format!("client from {} not served: {:?}", src, other)),
                     }
                 }
             });
             for r in futures::future::join_all(futs).await {
-                let (src, c) = r?;
-                *per.entry(src).or_default() += 1;
-                open.push(c);
+                if let Some((src, c)) = r? {
+                    *per.entry(src).or_default() += 1;
+                    open.push(c);
+                }
             }
         }
         // all connections are open now; the caller inspects the metrics, then they close.
@@ -517,9 +539,14 @@ fn prop_e2e(case: &E2eCase, info: &mut CaseInfo) -> Verdict {
     }
     let deadline = std::time::Instant::now() + std::time::Duration::from_secs(10);
     loop {
-        let zero = metrics.global().current_connections() == 0 && metrics.clients().map(|l| l.iter().all(|x| x.1.current_connections() == 0)).unwrap_or(false);
-        if zero {
+        let is_zero = |m: &RtrServerMetrics| m.global().current_connections() == 0 && m.clients().map(|l| l.iter().all(|x| x.1.current_connections() == 0)).unwrap_or(false);
+        let bad_zero = bad.as_ref().map(|b| is_zero(&b.metrics)).unwrap_or(true);
+        if is_zero(&metrics) && bad_zero {
             break;
+        }
+        if std::time::Instant::now() > deadline && !bad_zero {
+            let b = bad.as_ref().unwrap();
+            return Verdict::fail("C36/e2e/nonzero-after-failed-setups", format!("every connection to the listener whose keepalive the kernel rejects was closed by the server during setup, 10 s later its metrics still show open connections: global={} per-client={:?}", b.metrics.global().current_connections(), b.metrics.clients().map(|l| l.iter().map(|x| (x.0, x.1.current_connections())).collect::<Vec<_>>())));
         }
         if std::time::Instant::now() > deadline {
             // bounded-wait verdict: only reported when a control connection shows the server is responsive
